@@ -588,6 +588,81 @@ mut("C14", "first-error-wins-diagnostics", ("authorize.go", '''			diag.Errors = 
 mut("C14", "schema-entities-unsorted", ("x/exp/schema/internal/parser/marshal.go", "	entityNames := slices.Sorted(maps.Keys(entities))", "	entityNames := slices.Collect(maps.Keys(entities))"))
 mut("C14", "schema-record-attrs-unsorted", ("x/exp/schema/internal/parser/marshal.go", "	keys := slices.Sorted(maps.Keys(rec))", "	keys := slices.Collect(maps.Keys(rec))"))
 
+# ---- C19
+mut("C19", "todo-hoisted-to-package-scope", ("internal/eval/evalers.go", '''func entityInOne(env Env, entity types.EntityUID, parent types.EntityUID) bool {
+	if entity == parent {
+		return true
+	}
+	var known mapset.MapSet[types.EntityUID]
+	var todo []types.EntityUID''', '''var sharedTodo []types.EntityUID
+
+func entityInOne(env Env, entity types.EntityUID, parent types.EntityUID) bool {
+	if entity == parent {
+		return true
+	}
+	var known mapset.MapSet[types.EntityUID]
+	todo := sharedTodo[:0]
+	defer func() { sharedTodo = todo[:0] }()'''))
+mut("C19", "marshal-text-cached-in-policy", ("policy.go", '''type Policy struct {
+	eval eval.BoolEvaler // determines if a policy matches a request.
+	ast  *internalast.Policy
+}''', '''type Policy struct {
+	eval eval.BoolEvaler // determines if a policy matches a request.
+	ast  *internalast.Policy
+	text []byte
+}'''), ("policy.go", '''	cedarPolicy := (*parser.Policy)(p.ast)
+
+	var buf bytes.Buffer
+	cedarPolicy.MarshalCedar(&buf)
+
+	return buf.Bytes()''', '''	if p.text != nil {
+		return p.text
+	}
+	cedarPolicy := (*parser.Policy)(p.ast)
+
+	var buf bytes.Buffer
+	cedarPolicy.MarshalCedar(&buf)
+	p.text = buf.Bytes()
+	return p.text'''))
+mut("C19", "partial-writes-into-shared-ast", ("internal/eval/partial.go", '''		nodes := make([]ast.IsNode, len(v.Args))
+		copy(nodes, v.Args)
+		return tryPartial(env, nodes,''', '''		nodes := v.Args
+		return tryPartial(env, nodes,'''))
+mut("C19", "set-lazy-hash", ("types/set.go", '''func (s Set) Equal(bi Value) bool {
+	bs, ok := bi.(Set)
+	if !ok {
+		return false
+	}
+''', '''var lastComparedLen int
+
+func (s Set) Equal(bi Value) bool {
+	bs, ok := bi.(Set)
+	if !ok {
+		return false
+	}
+	lastComparedLen = len(s.s)
+'''))
+mut("C19", "batch-sorts-shared-variables", ("x/exp/batch/batch.go", '''	for k, v := range request.Variables {
+		be.Variables = append(be.Variables, variableItem{Key: k, Values: v})
+	}''', '''	for k, v := range request.Variables {
+		if len(v) > 1 {
+			v[0], v[len(v)-1] = v[len(v)-1], v[0]
+			defer func() { v[0], v[len(v)-1] = v[len(v)-1], v[0] }()
+		}
+		be.Variables = append(be.Variables, variableItem{Key: k, Values: v})
+	}'''))
+mut("C19", "validator-memoises-types", ("x/exp/schema/validate/policy.go", '''func (v *Validator) getEntityTypesIn(target types.EntityType) []types.EntityType {''', '''var entityTypesInCache = map[types.EntityType][]types.EntityType{}
+
+func (v *Validator) getEntityTypesIn(target types.EntityType) (res []types.EntityType) {
+	if r, ok := entityTypesInCache[target]; ok {
+		return r
+	}
+	defer func() { entityTypesInCache[target] = res }()
+	return v.getEntityTypesInUncached(target)
+}
+
+func (v *Validator) getEntityTypesInUncached(target types.EntityType) []types.EntityType {'''))
+
 # ---- C20
 mut("C20", "unmarshal-merges", ("policy_set.go", """	*p = PolicySet{
 		policies: make(PolicyMap, len(jsonPolicySet.StaticPolicies)),
